@@ -208,3 +208,5 @@ META = {
     "outside_claim": ["iteration order of sets of str (str.__hash__ cannot be patched): covered only by real hash seeds, i.e. sampled", "sets with more than 7 models (beyond the slot=rank regime)"],
     "assumptions": ["for sets of fewer than 6 elements with distinct small hashes CPython iterates in increasing hash order"],
 }
+if isinstance(META.get("bounds"), dict) and "quick" in META["bounds"]:
+    META["bounds"]["quick"] += '; recursive / shared-grandchild / punctuation-only-key inputs under real seeds; every CLI command repeated per seed (8x on replay)'
